@@ -301,6 +301,48 @@ func runC10(r *vf.Run) {
 			}
 		}
 	})
+	// identifiers: every short field and words that other languages reserve, as column of a leaf and as group-by entry
+	idents := gen.ShortIdentifiers(r.Thorough())
+	var iids []string
+	const ichunk = 4000
+	for i := 0; i < len(idents); i += ichunk {
+		iids = append(iids, fmt.Sprintf("ident/chunk%03d", i/ichunk))
+	}
+	r.ForEach(iids, 16, func(id string) {
+		var ci int
+		fmt.Sscanf(id, "ident/chunk%d", &ci)
+		for i := ci * ichunk; i < min((ci+1)*ichunk, len(idents)); i++ {
+			w := idents[i]
+			tid := fmt.Sprintf("%s/%s", id, w)
+			if !r.Want(tid) {
+				continue
+			}
+			var t *oracle.Expr
+			var gb []string
+			switch i % 4 {
+			case 0:
+				t, gb = oracle.Eq(w, "x"), []string{w}
+			case 1:
+				t, gb = oracle.And(oracle.Eq("a", "1"), oracle.Not(oracle.PhEq(w, 2))), []string{"a", w}
+			case 2:
+				t, gb = oracle.Or(oracle.Eq(w, w), oracle.And(oracle.Eq("b", "2"), oracle.Eq(w, ""))), nil
+			default:
+				t, gb = oracle.Not(oracle.Or(oracle.Eq(w, "1"), oracle.Eq(w+"_", "2"))), []string{w, w + "9", w}
+			}
+			r.Eval(1)
+			if p := roundTrip(t, gb); p != "" {
+				r.Violation(tid, "roundtrip", map[string]any{"identifier": w, "tree": t.String(), "group_by": fmt.Sprintf("%q", gb), "problem": head(p, 1200)})
+			}
+			r.Count("identifiers_round_tripped", 1)
+		}
+	})
+	{
+		long := strings.Repeat("q", 300) + "_" + strings.Repeat("9", 40)
+		r.Eval(1)
+		if p := roundTrip(oracle.And(oracle.Eq(long, "1"), oracle.Eq("a", long)), []string{long, "a", long}); p != "" && r.Want("ident/long") {
+			r.Violation("ident/long", "roundtrip", map[string]any{"identifier_length": len(long), "problem": head(p, 1200)})
+		}
+	}
 	// value classes, each in every leaf position of a small tree
 	for i, v := range append(append([]string{}, gen.Hostile...), `"`, `""`, `"""`, `a"`, `"a`, `a""b`, "\"\n\"", "$1", `" & b = "2`) {
 		tid := fmt.Sprintf("value%03d", i)
